@@ -158,6 +158,15 @@ def known_findings():
         return {'findings': [], 'fixed': []}
 
 
+def clear_replays(pid):
+    import glob
+    for f in glob.glob(os.path.join(REPLAYS, pid + '-*.json')):
+        try:
+            os.unlink(f)
+        except OSError:
+            pass
+
+
 def save_replay(pid, name, obj):
     os.makedirs(REPLAYS, exist_ok=True)
     path = os.path.join(REPLAYS, '%s-%s.json' % (pid, name))
